@@ -99,6 +99,19 @@ def _calls_in_order(st):
 
 
 def run(w: World, rep: Report):
+    # dependency obligations first: they stand on their own even if the decompiler has a shape the rules below cannot read
+    from .report import depend
+    depend(rep, w, 'rules_c11', ('C11.R7',), 'C12.TD11',
+           'what the decompiler prints for a push with an explicit size (`OP_PUSH1 d<n> x<hex>`, `d0 x` for the empty '
+           'payload) is read back as size and value: the compiler\'s one- vs two-symbol choice keeps no value spelling '
+           'out and consults the instruction tables (C11.R7 re-evaluated)', floor=4)
+    depend(rep, w, 'rules_c19', ('C19.R5',), 'C12.TD19',
+           'a listing is computed from the bytes and the current instruction tables on every call: neither decompile_script '
+           'nor the compiler is memoised (C19.R5 re-evaluated)', floor=1)
+    depend(rep, w, 'rules_c07', ('C07.R7',), 'C12.TD7',
+           'Tape.read - the only way the decompiler consumes bytes - fails only with its own error: its guard message '
+           'cannot raise by itself (C07.R7 re-evaluated for the guards of classes.py)', floor=1,
+           only=lambda c: 'guard-messages' in c)
     rep.rule('C12.R1', 'every size handed to tape.read in decompile_script (and in the generated soft-fork '
              'decompiler handler) is a non-negative constant or an unsigned decode', floor=24)
     rep.rule('C12.R2', 'every iteration of the decompiler main loop starts with a >= 1 byte read', floor=1)
@@ -284,15 +297,6 @@ def run(w: World, rep: Report):
     rep.check('C12.R7', 'classes.Tape.read|bounds', ok, line=tr.node.lineno, file='tapescript/classes.py',
               why='' if ok else 'Tape.read can return without checking pointer + size <= len(data)')
 
-    from .report import depend
-    depend(rep, w, 'rules_c11', ('C11.R7',), 'C12.TD11',
-           'what the decompiler prints for a push with an explicit size (`OP_PUSH1 d<n> x<hex>`, `d0 x` for the empty '
-           'payload) is read back as size and value: the compiler\'s one- vs two-symbol choice keeps no value spelling '
-           'out and consults the instruction tables (C11.R7 re-evaluated)', floor=4)
-    depend(rep, w, 'rules_c07', ('C07.R7',), 'C12.TD7',
-           'Tape.read - the only way the decompiler consumes bytes - fails only with its own error: its guard message '
-           'cannot raise by itself (C07.R7 re-evaluated for the guards of classes.py)', floor=1,
-           only=lambda c: 'guard-messages' in c)
     rep.explanation = (
         'Termination of decompile_script is decided structurally: all read sizes are non-negative '
         '(R1), each loop iteration consumes >= 1 byte (R2), recursion is on strictly shorter byte '
